@@ -29,7 +29,7 @@ EXPLANATION = ("Real TraceAnalysis.get_gpu_kernel_breakdown (_get_gpu_kernel_typ
                "the type's total duration; <= num_kernels named rows; a named row's sum/min/max/mean are those of the "
                "kernels bearing that name. Non-trivial path = admits two types overlapping for a positive time, or "
                "(single-type skeletons) positive busy time.")
-ASSUMPTIONS = ["integer timestamps in [0,2^52)", "round(x,1) modelled as within 0.05", "std column unconstrained",
+ASSUMPTIONS = ["integer timestamps in [0,2^40]", "round(x,1) modelled as within 0.05", "std column unconstrained",
                "JSON reading stubbed"]
 STUBS = ["hta.common.trace_parser.parse_trace_dict", "Trace._validate_trace_files", "plotly", "logging"]
 
